@@ -103,6 +103,10 @@ ROWS = [
  (['C01'], 'escaped.ValueError@numbers.py:from_token', F, '26932cf2', 'RUN of a tokenised file ending inside a number constant escaped as ValueError'),
  (['C01', 'C10', 'C23'], 'escaped.error@strings.py:collect_garbage', F, '6a0c43ef', 'CLEAR ,1,16777216 then PRINT FRE("") escaped as struct.error (sizes applied one by one, no lower bound)'),
  (['C01'], 'escaped.error@strings.py:from_pointer', F, '6a0c43ef', 'CLEAR 0,256 then CHAIN MERGE ...,ALL escaped as struct.error (same cause)'),
+ (['C10', 'C11'], 'clear.memory-size-ignored', F, '8e64e579', 'CLEAR ,n without a stack size no longer changed the memory size (regression introduced by 6a0c43ef; reported by a seeding agent)'),
+ (['C01'], 'escaped.AttributeError@machine.py:out_', F, '0108e7d1', 'OUT &H3C5,1 (or &H3CF) in text mode escaped as AttributeError'),
+ (['C01', 'C33', 'C42'], 'escaped.AttributeError@mlparser.py:_parse_indices', F, 'b37e0de9', 'DRAW "U=A(B$);" / PLAY "L=A(B$);" escaped as AttributeError instead of Type mismatch'),
+ (['C01', 'C15'], 'escaped.error@program.py:rebuild_line_dict', F, 'ded692ca', 'LOAD of a tokenised file larger than 64K escaped as struct.error; oversized files were not refused with Out of memory'),
  (['C01'], 'escaped.AttributeError@implementation.py:line_input_', F, '7a9a75fa', 'OPEN "SCRN:" FOR RANDOM AS #2: LINE INPUT#2,T$ escaped as AttributeError'),
  (['C01'], 'escaped.ValueError@program.py:edit', F, '69455d23', 'pending EDIT prompt after the line was replaced escaped as ValueError (min of empty sequence)'),
  (['C01'], 'escaped.error@program.py:renum', F, 'ecc8fcf4', 'LOAD of the file FF 49 53 0E then RENUM escaped as struct.error'),
